@@ -15,7 +15,7 @@ VERIF = os.path.dirname(HERE)
 sys.path.insert(0, HERE)
 from planted import M  # noqa: E402
 
-SCRATCH = "/tmp/verif-sens"
+SCRATCH = "/tmp/verif-sens-%d" % os.getpid()   # per process: two suites may run side by side
 
 
 def apply(root, file, old, new):
